@@ -163,6 +163,53 @@ pub trait Prop: Sync {
     fn shrink_budget(&self) -> usize {
         4000
     }
+    /// Parts that drive `unsafe` code (or whole node stacks) leave a breadcrumb of the running case in
+    /// /dev/shm, so that a case which kills the process (abort, segfault) can be identified and
+    /// reported as a violation by the supervising parent process.
+    fn breadcrumbs(&self) -> bool {
+        false
+    }
+}
+
+pub struct Crumb {
+    file: Option<std::fs::File>,
+}
+
+impl Crumb {
+    pub fn open(part: &str, shard: u64, enabled: bool) -> Self {
+        let file = if enabled {
+            std::env::var("VP_CRUMBS").ok().and_then(|dir| {
+                std::fs::OpenOptions::new().create(true).write(true).open(format!("{dir}/{part}-{shard}")).ok()
+            })
+        } else {
+            None
+        };
+        Crumb { file }
+    }
+
+    pub fn note(&self, choices: &[u64]) {
+        use std::os::unix::fs::FileExt;
+        if let Some(f) = &self.file {
+            let mut buf = Vec::with_capacity(8 + choices.len() * 8);
+            buf.extend_from_slice(&(choices.len() as u64).to_le_bytes());
+            for c in choices {
+                buf.extend_from_slice(&c.to_le_bytes());
+            }
+            let _ = f.write_at(&buf, 0);
+        }
+    }
+
+    pub fn read(path: &str) -> Option<Vec<u64>> {
+        let b = std::fs::read(path).ok()?;
+        if b.len() < 8 {
+            return None;
+        }
+        let n = u64::from_le_bytes(b[0..8].try_into().ok()?) as usize;
+        if b.len() < 8 + n * 8 {
+            return None;
+        }
+        Some((0..n).map(|i| u64::from_le_bytes(b[8 + i * 8..16 + i * 8].try_into().unwrap())).collect())
+    }
 }
 
 // ---------------------------------------------------------------------------------------
@@ -435,6 +482,7 @@ pub fn run_generated<P: Prop>(prop: &P, cfg: &RunCfg, cases: u64, known: &[Known
                 let strat = proptest::collection::vec(proptest::num::u64::ANY, prop.width());
                 let mut stats = Stats::default();
                 let mut done = 0u64;
+                let crumb = Crumb::open(prop.part(), shard, prop.breadcrumbs());
                 loop {
                     if stop.load(Ordering::Relaxed) {
                         break;
@@ -449,7 +497,11 @@ pub fn run_generated<P: Prop>(prop: &P, cfg: &RunCfg, cases: u64, known: &[Known
                         .new_tree(&mut runner)
                         .expect("generation cannot fail")
                         .current();
+                    crumb.note(&choices);
                     let (out, case) = run_guarded(prop, &choices);
+                    if std::env::var("VP_TRACE").is_ok() {
+                        eprintln!("TRACE shard {shard} choices {:?} -> {:?}", &choices, out.as_ref().map(|p| p.labels.clone()).map_err(|f| f.signature.clone()));
+                    }
                     stats.evaluations += 1;
                     match out {
                         Ok(pass) => {
@@ -537,10 +589,12 @@ pub fn run_listed<P: Prop>(
     let total = Mutex::new(Stats::default());
     let known_hits: Mutex<BTreeMap<String, KnownFinding>> = Mutex::new(BTreeMap::new());
     let next = AtomicU64::new(0);
+    let shard_no = AtomicU64::new(0);
     std::thread::scope(|scope| {
         for _ in 0..threads {
             scope.spawn(|| {
                 let mut stats = Stats::default();
+                let crumb = Crumb::open(prop.part(), shard_no.fetch_add(1, Ordering::Relaxed), prop.breadcrumbs());
                 loop {
                     if stop.load(Ordering::Relaxed) {
                         break;
@@ -550,6 +604,7 @@ pub fn run_listed<P: Prop>(
                         break;
                     }
                     let choices = &list[i];
+                    crumb.note(choices);
                     let (out, case) = run_guarded(prop, choices);
                     stats.evaluations += 1;
                     match out {
